@@ -33,6 +33,12 @@ class HandlerFailure(Exception):
         return "failure %s (%s)" % (self.code, self.detail)
 
 
+def N_app_request_for(app_id):
+    from bvm import node as N
+    lm = N.app_request(4242, app=int.from_bytes(app_id, "big") if isinstance(app_id, bytes) else app_id, code=8388001, dest_host=appnode.LOCAL_HOST, dest_realm=appnode.LOCAL_REALM)
+    return lm
+
+
 def execute(acc, g, case):
     from bromelia.base import DiameterAnswer, DiameterRequest, DiameterMessage
     from bromelia.avps import SessionIdAVP, ResultCodeAVP, OriginHostAVP, OriginRealmAVP
@@ -172,6 +178,18 @@ def execute(acc, g, case):
                     acc.counters["fallbacks_judged"] += 1
                 else:
                     acc.counters["answers_judged"] += 1
+        # a request for a command nobody registered under a served application: the statement presupposes a registered
+        # handler, so what the library does here (nothing reaches the peer) is recorded, not judged
+        if routes:
+            key, rt = sorted(routes.items())[0]
+            lm = N_app_request_for(rt["app_id"])
+            before = len(h.sent())
+            nd = len(sched.deaths)
+            thr = app.create_message_thread(DiameterMessage.load(R.encode(lm))[0])
+            sched.run_until(lambda: thr.done, 5.0, "unregistered-dispatch")
+            died = sched.deaths[nd:]
+            acc.observe("request-for-unregistered-command:%d-messages-sent:%s" % (len(h.sent()) - before, died[0]["type"] if died else "no-exception"))
+            del sched.deaths[nd:]
         acc.sample({"apps": case["apps"], "routes": [list(k) for k in routes][:6], "dispatches": n_dispatch}, limit=3)
     except vsched.DeadlockError as ex:
         acc.violation("deadlock-in-dispatch", "deadlock: %s" % ex, dict(wit, stacks=sched.stacks()))
